@@ -303,31 +303,8 @@ def all_ops(rows, cols):
     return [("M", a[0], a[1], b[0], b[1]) for a in cells for b in cells] + [("S", r, c) for r, c in cells]
 
 
-def exhaustive(impl, rows, cols, depth, sink, paths=None):
-    """All merge/split sequences to [depth] from the fixed initial table; a sequence whose
-    XML state was already expanded (with at least as much depth left) is not expanded again."""
-    base = init_text_ops(rows, cols)
-    ops = all_ops(rows, cols)
-    w, h = 1000 * cols + 1, 700 * rows + (1 if rows > 1 else 0)
-    seen = set()
-    level = [()] if paths is None else paths
-    _o, t0 = impl.run((rows, cols, w, h, base + [(False, ("S", 0, 0))]))
-    seen.add(t0[1][2]["xml"])
-    for d in range(depth if paths is None else 1):
-        nxt = []
-        for path in level:
-            for op in ops:
-                case = (rows, cols, w, h, base + [(False, o) for o in path + (op,)])
-                out, trace = impl.run(case)
-                sink(case, out, trace, "exh")
-                if not trace:
-                    continue
-                xml = trace[-1][3]["xml"]
-                if xml not in seen:
-                    seen.add(xml)
-                    nxt.append(path + (op,))
-        level = nxt
-    return level
+def exh_setup(rows, cols):
+    return init_text_ops(rows, cols), all_ops(rows, cols), 1000 * cols + 1, 700 * rows + (1 if rows > 1 else 0)
 
 
 ALPHA = ["a", "b", " ", "\v", "\t", "\n", "\n", "é", "\U0001F600", "Z"]
@@ -432,53 +409,73 @@ def nontrivial(case, trace):
     return False
 
 
-# ----------------------------------------------------------------------------- thorough sharding
+# ----------------------------------------------------------------------------- jobs
+# A job is run by one process: the implementation, the oracle and the extracted model on a chunk
+# of cases; it returns a summary that the parent merges (in job order, so the run is deterministic).
 _W = {}
 
 
-def _shard(arg):
-    """Worker: expand the given depth-2 paths of one shape by one more level."""
-    rows, cols, paths = arg
-    impl = _W.get("impl") or _W.setdefault("impl", Impl())
-    got = []
-
-    def sink(case, out, trace, klass):
-        got.append((case, out, oracle(case, out, trace), nontrivial(case, trace)))
-    exhaustive(impl, rows, cols, 1, sink, paths=paths)
-    return got
+def _impl():
+    if "impl" not in _W:
+        _W["impl"] = Impl()
+    return _W["impl"]
 
 
-# ----------------------------------------------------------------------------- check
-class Acc:
-    def __init__(self, ck):
-        self.ck = ck
-        self.batch = []
-        self.diffs = 0
-        self.first_diff = None
-        self.cases = 0
+def run_job(job):
+    import hashlib
 
-    def add(self, case, out, faults, nontriv, klass):
-        ck = self.ck
-        self.cases += 1
-        ck.count(wire(case), nontriv, klass)
-        for sig, what, stepi in faults:
-            ck.violation(sig, what, {"entry_point": "shapes.add_table / _Cell.merge / _Cell.split / _Row.height / _Column.width",
-                                     "input": case_json(case), "step": stepi, "impl_outcome": out[:4000]})
-        self.batch.append((case, out))
-        if len(self.batch) >= 20000:
-            self.flush()
+    impl = _impl()
+    kind = job[0]
+    res = {"n": 0, "klass": None, "nontrivial": [], "faults": [], "diffs": 0, "first_diff": None,
+           "notes": [], "new_states": [], "samples": []}
+    batch = []
 
-    def flush(self):
-        if self.batch and self.ck.build.ok:
-            mo = run_model("C14", [wire(c) for c, _ in self.batch])
-            for (c, io), m in zip(self.batch, mo):
-                if m != io:
-                    self.diffs += 1
-                    if self.first_diff is None:
-                        self.first_diff = (c, m, io)
-                    if self.diffs <= 5:
-                        self.ck.notes.append("diff %r model=%s impl=%s" % (case_json(c), m[:600], io[:600]))
-        self.batch = []
+    def one(case, klass):
+        out, trace = impl.run(case)
+        res["n"] += 1
+        if nontrivial(case, trace):
+            res["nontrivial"].append(hashlib.sha1(repr(wire(case)).encode("utf-8", "surrogatepass")).hexdigest()[:16])
+        for sig, what, stepi in oracle(case, out, trace):
+            if sum(1 for f in res["faults"] if f[0] == sig) < 3:
+                res["faults"].append((sig, what, stepi, case_json(case), out[:4000]))
+        batch.append((case, out))
+        return trace
+
+    if kind == "cases":
+        _, klass, cases = job
+        res["klass"] = klass
+        for case in cases:
+            one(case, klass)
+        res["samples"] = [case_json(c) for c in cases[:2]]
+    else:
+        # expand: every operation from every given path of one shape
+        _, rows, cols, paths = job
+        res["klass"] = "exh"
+        base, ops, w, h = exh_setup(rows, cols)
+        seen = set()
+        for path in paths:
+            for op in ops:
+                case = (rows, cols, w, h, base + [(False, o) for o in tuple(path) + (op,)])
+                trace = one(case, "exh")
+                if trace:
+                    hx = hashlib.sha1(trace[-1][3]["xml"]).hexdigest()
+                    if hx not in seen:
+                        seen.add(hx)
+                        res["new_states"].append((tuple(path) + (op,), hx))
+    if job[-1] != "nomodel":
+        mo = run_model("C14", [wire(c) for c, _ in batch])
+        for (c, io), m in zip(batch, mo):
+            if m != io:
+                res["diffs"] += 1
+                if res["first_diff"] is None:
+                    res["first_diff"] = (case_json(c), m, io)
+                if res["diffs"] <= 2:
+                    res["notes"].append("diff %r model=%s impl=%s" % (case_json(c), m[:600], io[:600]))
+    return res
+
+
+def chunks(lst, n):
+    return [lst[i:i + n] for i in range(0, len(lst), n)]
 
 
 def case_json(case):
@@ -492,59 +489,81 @@ def case_from_json(j):
 
 
 def run(ck, tier, rng):
+    import hashlib
+
     ck.build = coq_build("C14")
-    impl = Impl()
-    acc = Acc(ck)
-
-    def sink(case, out, trace, klass):
-        acc.add(case, out, oracle(case, out, trace), nontrivial(case, trace), klass)
-
-    # 1. bounded-exhaustive merge/split sequences
-    maxdim, depth = (3, 2) if tier == "quick" else (4, 3)
-    shapes = [(r, c) for r in range(1, maxdim + 1) for c in range(1, maxdim + 1)]
-    states = {}
-    if tier == "quick":
-        for r, c in shapes:
-            exhaustive(impl, r, c, depth, sink)
-    else:
-        jobs = []
-        for r, c in shapes:
-            lvl2 = exhaustive(impl, r, c, depth - 1, sink)
-            states["%dx%d" % (r, c)] = len(lvl2)
-            step = max(1, len(lvl2) // 64 + 1)
-            jobs += [(r, c, lvl2[i:i + step]) for i in range(0, len(lvl2), step)]
+    quick = tier == "quick"
+    tot = {"diffs": 0, "first_diff": None}
+    pool = None
+    if not quick:
         nproc = min(16, os.cpu_count() or 1)
-        with multiprocessing.get_context("fork").Pool(nproc) as pool:
-            for got in pool.imap(_shard, jobs):
-                for case, out, faults, nt in got:
-                    acc.add(case, out, faults, nt, "exh")
-    # 2. random histories on tables up to 12x12
-    for _ in range(400 if tier == "quick" else 6000):
-        case = random_case(rng)
-        out, trace = impl.run(case)
-        sink(case, out, trace, "rand")
-        if len(ck.samples) < 3:
-            ck.sample(case_json(case), limit=12)
-    # 3. creation sweep
-    for case in new_cases(tier):
-        out, trace = impl.run(case)
-        sink(case, out, trace, "new")
-    # 4. malformed stream
-    for case in malformed_cases(rng, 600 if tier == "quick" else 6000):
-        out, trace = impl.run(case)
-        sink(case, out, trace, "malformed")
-        if len(ck.samples) < 6:
-            ck.sample(case_json(case), limit=12)
-    acc.flush()
-    if acc.diffs and len(ck.violations) == 0:
-        c, m, io = acc.first_diff
+        pool = multiprocessing.get_context("fork").Pool(nproc)
+
+    def run_jobs(jobs):
+        if not ck.build.ok:
+            jobs = [j + ("nomodel",) for j in jobs]
+        results = pool.imap(run_job, jobs) if pool else map(run_job, jobs)
+        out = []
+        for res in results:
+            ck.evaluations += res["n"]
+            ck.dist[res["klass"]] = ck.dist.get(res["klass"], 0) + res["n"]
+            ck.nontrivial.update(res["nontrivial"])
+            for sig, what, stepi, cj, o in res["faults"]:
+                ck.violation(sig, what, {"entry_point": "shapes.add_table / _Cell.merge / _Cell.split / _Row.height / _Column.width",
+                                         "input": cj, "step": stepi, "impl_outcome": o})
+            tot["diffs"] += res["diffs"]
+            if tot["first_diff"] is None:
+                tot["first_diff"] = res["first_diff"]
+            if len(ck.notes) < 5:
+                ck.notes.extend(res["notes"])
+            for smp in res["samples"]:
+                if sum(1 for x in ck.samples if x[-1:] == [res["klass"]]) < 3:
+                    ck.sample(smp + [res["klass"]], limit=12)
+            out.append(res)
+        return out
+
+    try:
+        # 1. bounded-exhaustive merge/split sequences, level by level, states deduplicated by XML
+        maxdim, depth = (3, 2) if quick else (4, 3)
+        states = {}
+        for r in range(1, maxdim + 1):
+            for c in range(1, maxdim + 1):
+                base, _ops, w, h = exh_setup(r, c)
+                _o, t0 = _impl().run((r, c, w, h, base + [(False, ("S", 0, 0))]))
+                seen = {hashlib.sha1(t0[1][2]["xml"]).hexdigest()}
+                level = [()]
+                per_level = []
+                for d in range(depth):
+                    step = max(1, -(-len(level) // 64))
+                    nxt = []
+                    for res in run_jobs([("expand", r, c, ch) for ch in chunks(level, step)]):
+                        for path, hx in res["new_states"]:
+                            if hx not in seen:
+                                seen.add(hx)
+                                nxt.append(path)
+                    per_level.append(len(nxt))
+                    level = nxt
+                states["%dx%d" % (r, c)] = per_level
+        # 2. random histories on tables up to 12x12
+        rand = [random_case(rng) for _ in range(600 if quick else 8000)]
+        run_jobs([("cases", "rand", ch) for ch in chunks(rand, 100)])
+        # 3. creation sweep
+        run_jobs([("cases", "new", ch) for ch in chunks(new_cases(tier), 2000)])
+        # 4. malformed stream
+        run_jobs([("cases", "malformed", ch) for ch in chunks(malformed_cases(rng, 600 if quick else 8000), 500)])
+    finally:
+        if pool:
+            pool.close()
+            pool.join()
+    if tot["diffs"] and len(ck.violations) == 0:
+        cj, m, io = tot["first_diff"]
         ck.violation("correspondence",
                      "model/Table.v and python-pptx tables disagree on %d cases, e.g. %r: model=%s impl=%s; the oracle found no "
-                     "input on which the property itself fails" % (acc.diffs, case_json(c), m[:500], io[:500]),
+                     "input on which the property itself fails" % (tot["diffs"], cj, m[:500], io[:500]),
                      {"theorem_or_correspondence": "correspondence Table.v ~ pptx.table / pptx.oxml.table (theorems C14_* are about the model only)",
-                      "input": case_json(c), "model_outcome": m, "impl_outcome": io}, concrete=False)
-    elif acc.diffs:
-        ck.notes.append("%d model/impl diffs besides the concrete oracle failures" % acc.diffs)
+                      "input": cj, "model_outcome": m, "impl_outcome": io}, concrete=False)
+    elif tot["diffs"]:
+        ck.notes.append("%d model/impl diffs besides the concrete oracle failures" % tot["diffs"])
     ck.broken_build(oracle_found_concrete=len(ck.violations) > 0)
     return ck.finish(
         rule="every sequence of merges (all ordered corner pairs) and splits (every cell) to depth %d on every table shape up to %dx%d from a "
@@ -554,7 +573,7 @@ def run(ck, tier, rng):
              "the table, negative and out-of-range sizes). non-trivial = a history with an accepted merge of >= 2 cells or an accepted split, "
              "or a creation whose width or height is not divisible" % (depth, maxdim, maxdim),
         trusted_base=TB, assumptions=ASSUME,
-        extra={"correspondence_diffs": acc.diffs, "exhaustive": True, "expanded_depth2_states": states},
+        extra={"correspondence_diffs": tot["diffs"], "exhaustive": True, "new_states_per_level": states},
     )
 
 
